@@ -17,7 +17,7 @@
     _handle_replace_root_stage                   1486-1501  (the function is named in the file)
     _handle_facet_stage                          1593-1598
     Collection.aggregate                         collection.py (normalises the pipeline's datetimes,
-                                                 reads the input with find(), runs process_pipeline)
+                                                 reads the stored documents, runs process_pipeline)
 
   A pipeline is a raw `Val` list of stage dicts exactly as the Python code sees it; the documents
   flowing through are `List Val`.  The database is the list of its collections' contents (what
@@ -161,13 +161,45 @@ def replaceRootStage : Val → List Val → R (List Val)
 
 /-! ### `$addFields` / `$set` (aggregate.py:1541-1559) -/
 
-/-- the walk `out_doc[subfield] = out_doc.get(subfield, {}) …; out_doc[parts[-1]] = value`
-    below the first component, on the dict `g` -/
+/-- the walk of `$unwind`'s `_set_index`: `parent[subfield] = {}` unless it is a dict …;
+    `parent[parts[-1]] = value`, on the dict `g` -/
 def nestedSet : Fields → List String → Val → Fields
   | g, [], _ => g
   | g, [k], v => dset k v g
   | g, k :: ks, v =>
     dset k (.doc (nestedSet (match dget k g with | some (.doc h) => h | _ => []) ks v)) g
+
+/-- `_add_field(value, parts, new)` for a value that gives way to new documents (missing, null,
+    a scalar): `{k₁: {k₂: … new}}` -/
+def freshPath : List String → Val → Val
+  | [], new => new
+  | k :: ks, new => .doc [(k, freshPath ks new)]
+
+mutual
+  /-- `_add_field(value, parts, new_value)`: the value with `new` at the dotted path below it — in
+      every item of an array (each gets its own deep copy of `new`; nested arrays are gone
+      through, an item that is no document becomes one), inside a (shallow-copied) document,
+      and in the place of anything else -/
+  def addField : Val → List String → Val → Val
+    | _, [], new => new
+    | .arr xs, k :: ks, new => .arr (addFieldItems xs (k :: ks) new)
+    | .doc fs, k :: ks, new => .doc (addFieldIn fs k ks new)
+    | _, k :: ks, new => freshPath (k :: ks) new
+  termination_by structural x _ _ => x
+
+  def addFieldItems : List Val → List String → Val → List Val
+    | [], _, _ => []
+    | x :: xs, parts, new => addField x parts new :: addFieldItems xs parts new
+  termination_by structural x _ _ => x
+
+  /-- `value[k] = _add_field(value.get(k), ks, new)` on the fields of a dict: an existing key
+      keeps its place, a new one is appended -/
+  def addFieldIn : Fields → String → List String → Val → Fields
+    | [], k, ks, new => [(k, freshPath ks new)]
+    | (k', v) :: r, k, ks, new =>
+      if k' = k then (k', addField v ks new) :: r else (k', v) :: addFieldIn r k ks new
+  termination_by structural x _ _ _ => x
+end
 
 /-- per document: `in_doc` — read by every expression of the stage and never written: each level
     of a dotted name is shallow-copied (`copy.copy`) before the write — and `out_doc` -/
@@ -183,7 +215,8 @@ def afStep (field : String) (e : Val) (s : AfState) : R AfState :=
   | .ok (some v) =>
     match splitDots field with
     | [] => unmodelled
-    | parts => .ok { s with outD := nestedSet s.outD parts v }
+    -- `out_doc[parts[0]] = _add_field(out_doc.get(parts[0]), parts[1:], out_value)`
+    | k :: ks => .ok { s with outD := addFieldIn s.outD k ks v }
 
 def afInit : Val → R AfState
   | .doc fs => .ok { inD := fs, outD := fs }
@@ -397,7 +430,8 @@ def lookupDoc (foreign : List Val) (lf ff as : String) : Val → R Val
     | .ok q =>
       match findDocs (.doc [(ff, q)]) foreign with
       | .error e => .error e
-      | .ok ms => .ok (.doc (dset as (.arr ms) fs))
+      -- the fetched documents go through `patch_datetime_awareness_in_document`: as stored
+      | .ok ms => .ok (.doc (dset as (.arr (patchList ms)) fs))
   | _ => unmodelled
 
 def hasDotDot : List Char → Bool
@@ -573,22 +607,47 @@ def emitGroups (options : Fields) : List (Val × List Val) → R (List Val)
       | .error e => .error e
       | .ok r => .ok (.doc (dset "_id" k fs) :: r)
 
+/-- the accumulators mongomock implements: `_GROUPING_OPERATOR_MAP`, `$addToSet`, `$push` -/
+def accNames : List String :=
+  ["$sum", "$avg", "$mergeObjects", "$min", "$max", "$first", "$last", "$addToSet", "$push"]
+
+/-- `_validate_accumulators(output_fields)`: before any document is read, every operator of
+    every field (`_id` skipped) must be an implemented accumulator — `$stdDevPop` / `$stdDevSamp`
+    and unknown names alike are a NotImplementedError; a field value that is no dict has no
+    `.keys()` -/
+def validateAccs : Fields → R Unit
+  | [] => .ok ()
+  | (field, spec) :: rest =>
+    if field = "_id" then validateAccs rest
+    else
+      match spec with
+      | .doc ops =>
+        if ops.all (fun kv => accNames.contains kv.1) then validateAccs rest
+        else .error .notImpl
+      | _ => .error .attrErr
+
+/-- `_handle_group_stage` once the accumulators are validated -/
+def groupBody (options : Fields) (docs : List Val) : R (List Val) :=
+  match dget "_id" options with
+  | none => .error .keyErr
+  | some idExpr =>
+    if !(Expr.isNull idExpr) then                   -- `if _id is not None`
+      match keyed idExpr docs with
+      | .error e => .error e
+      | .ok kds =>
+        if !(kds.all (fun kd => keyShallow kd.1)) then unmodelled
+        else
+          match pySorted keyedLt false kds with
+          | .error e => .error e
+          | .ok sorted => emitGroups options (groupRuns sorted)
+    else emitGroups options (if docs.isEmpty then [] else [(.null, docs)])
+
 def groupStage : Val → List Val → R (List Val)
   | .doc options, docs =>
-    match dget "_id" options with
-    | none => .error .keyErr
-    | some idExpr =>
-      if !(Expr.isNull idExpr) then                   -- `if _id is not None`
-        match keyed idExpr docs with
-        | .error e => .error e
-        | .ok kds =>
-          if !(kds.all (fun kd => keyShallow kd.1)) then unmodelled
-          else
-            match pySorted keyedLt false kds with
-            | .error e => .error e
-            | .ok sorted => emitGroups options (groupRuns sorted)
-      else emitGroups options (if docs.isEmpty then [] else [(.null, docs)])
-  | _, _ => .error .typeErr                           -- `options['_id']` on a non-dict
+    match validateAccs options with                   -- before `options['_id']` is even read
+    | .error e => .error e
+    | .ok _ => groupBody options docs
+  | _, _ => .error .attrErr                           -- `output_fields.items()` on a non-dict
 
 /-! ### `$bucket` (aggregate.py:1289-1349) -/
 
@@ -674,8 +733,11 @@ def bucketStage : Val → List Val → R (List Val)
                  | none => some [("count", Val.doc [("$sum", .int 1)])]
                  | some (.doc f) => some f
                  | some _ => none) with
-          | none => unmodelled
+          | none => .error .attrErr                               -- `output_fields.items()`
           | some output =>
+            match validateAccs output with
+            | .error e => .error e
+            | .ok _ =>
             let dflt := dget "default" o
             let last : Bool := match dflt, bs.getLast? with
               | some v, some b =>
@@ -867,7 +929,10 @@ end
 def normPipeline (stages : List Val) : List Val := patchList stages
 
 /-- `list(collection.aggregate(pipeline))` for a pipeline given as a value: the pipeline is
-    normalised, the input is `find()`, then `process_pipeline` -/
+    normalised, the input is the documents as stored (`_get_dataset({}, …)`: a copy of each, naive
+    datetimes whatever `tz_aware`), then `process_pipeline`.  (A `tz_aware=True` client gets the
+    results rebuilt with aware datetimes at the very end — MongoModel.DateTime, C18; for a naive
+    client, modelled here, the results are handed out as they are.) -/
 def aggregate (db : Db) (coll : String) (pipeline : Val) : R (List Val) :=
   match pipeline with
   | .arr stages => runPipeline db (normPipeline stages) (db.get coll)
